@@ -100,6 +100,10 @@ def run(ctx, rep):
             RD.check_with_lines(fx, rep, "C02.2", impl, wl, "C02.2/lines")
         if wo:
             RD.check_without_lines(fx, rep, "C02.2", impl, wo, "C02.2/params")
+        if wl and wo:
+            # the stored query is read-only while the frames are produced (a write through it makes later answers depend on
+            # earlier ones in one implementation only)
+            RD.check_query_readonly(fx, rep, "C02.2", impl, A.method(fx, impl + "::RemappedFrameIter", "next", trait="Iterator") + [wl, wo], "C02.2")
         BR.check_class_header_arms(fx, rep, "C02.3", impl)
         BR.check_method_effects(fx, rep, "C02.8" if impl == "mapper" else "C02.3", impl)
     check_field_ignored(fx, rep, "C02.3")
